@@ -462,7 +462,7 @@ PROPS = {
     ),
     "C09": dict(
         module="YkProps.C09",
-        leancheck=['YkModel.Reserve', 'YkProofs.Reserve', 'YkProps.C09'],
+        leancheck=['YkModel.Reserve', 'YkProofs.Reserve', 'YkProps.C09', 'YkModel.CoreOps2', 'YkModel.CoreRun', 'YkProofs.Core2Res', 'YkProofs.Core2ResA', 'YkProofs.Core2ResB', 'YkProofs.Core2ResC', 'YkProofs.Core2ResD', 'YkProofs.Core2ResE', 'YkProofs.Core2ResRun'],
         runs=[dict(comp="core", quick=720, thorough=9000, extra=["-mode", "mixed"])],
         classify=cls_tagged("C09"),
         nontrivial=lambda line: '"op":"reset"' not in line,
@@ -567,7 +567,7 @@ PROPS = {
     ),
     "C05": dict(
         module="YkProps.C05",
-        leancheck=["YkModel.Ugm", "YkProofs.Ugm", "YkProofs.UgmAcct", "YkProofs.UgmCfg", "YkProofs.UgmLoad", "YkProofs.UgmMgr", "YkProofs.UgmMAcct", "YkProps.C05"],
+        leancheck=["YkModel.Ugm", "YkProofs.Ugm", "YkProofs.UgmAcct", "YkProofs.UgmCfg", "YkProofs.UgmLoad", "YkProofs.UgmMgr", "YkProofs.UgmMAcct", "YkProofs.UgmGAcct", "YkProofs.UgmGLoad", "YkProofs.UgmReload", "YkProofs.UgmReload2", "YkProofs.UgmReload3", "YkProofs.UgmReload4", "YkProofs.UgmReload5", "YkProps.C05"],
         runs=[dict(comp="ugm", quick=1600, thorough=48000), dict(comp="core", quick=720, thorough=9000, extra=["-mode", "mixed"])],
         classify=cls_ugm,
         nontrivial=lambda line: '"op":"reset"' not in line,
@@ -591,7 +591,9 @@ PROPS = {
                    "Manager.CanRunApp = true admits at most max-applications on every tracker of both trees; "
                    "(accounting) for EVERY history of manager operations under the callers' contract - Headroom, CanRunApp, Increase, Decrease (incl. removeApp and the removal of emptied trackers) and configuration reloads (limit changes, unlinks, tracker removal) - the usage a user tracker holds = sum of the user's live allocations per queue and type; the same invariant for any single tracker tree; a release after the increase restores; "
                    "the application->group link of a running application survives Headroom/CanRunApp/Increase/Decrease; "
-                   "(limits follow configuration) proved for every first configuration loaded into an empty manager (users: named, else wildcard, else none; groups), the unrestricted statement is machine-refuted by witnesses (stale wildcard limit, lost named limit, lost group limit), as are group accounting across reloads and the determinism of a reload (Go map order) - known findings, replayed on the real manager from corpus/C05; a small-scope search of the model (tools/ugm_search.lean: <=3 paths, principals {a,b,*}, <=3 reloads, ~3.6 million histories) finds no further class and no violation outside the two confirmed mechanisms. "
+                   "group accounting at the manager: for every history WITHOUT reloads after the first load of a validated configuration (Headroom, CanRunApp, Increase, Decrease incl. removeApp; links as ensureGroupInternal resolves them; application ids unique) a group tracker's usage = sum of the live allocations of the applications linked to it, every link has a tracker, configured group trackers are never removed (refuted across reloads: known finding); "
+                   "(limits follow configuration) proved for every first configuration loaded into an empty manager (users: named, else wildcard, else none; groups), and for EVERY reload of a manager whose trackers are in step with its configuration (Synced; preserved by the reload, so the statement chains) under decidable hypotheses on (active maps, new configuration): no queue loses its wildcard limit while users are named on it in both configurations (F17), nobody loses the limit of a queue and keeps one in its subtree (F18 / group-lost), at most one dropped queue per user/group, validated configuration - each F-hypothesis shown necessary by a witness that violates only it; the driver checks on the real manager that no limit is off while every reload of a case met the hypotheses (clause C05.reload-partial-violated); "
+                   "the unrestricted statement is machine-refuted by witnesses (stale wildcard limit, lost named limit, lost group limit), as are group accounting across reloads and the determinism of a reload (Go map order) - known findings, replayed on the real manager from corpus/C05; a small-scope search of the model (tools/ugm_search.lean: <=3 paths, principals {a,b,*}, <=3 reloads, ~3.6 million histories) finds no further class and no violation outside the two confirmed mechanisms. "
                    "Tie: differential correspondence of the model against the real ugm.Manager (answers + complete state after every operation) and the property clauses evaluated on the implementation's state.",
         level_note="trusted: Lean kernel; hand-written Ugm model tied by correspondence only; exact arithmetic; queue paths start at the root; group accounting is proved per tracker tree only for histories without resetGroupEarlierUsage (refuted across reloads: known finding)",
         technique="Lean 4 proofs (fold invariants over the tracker tree and over UpdateConfig) + machine-checked refutations + differential correspondence on ugm.Manager",
